@@ -49,6 +49,17 @@ fn lmer_req<K: Raw, A: Array<Item = u64> + Copy + Eq + Ord + Hash>(seq: &[u8], r
     if req == "rc" { rc_of::<K, _>(&l) } else { on_vmer::<K, _>(&l, req, rest) }
 }
 
+fn slice_req<K: Raw>(s: &debruijn::dna_string::DnaStringSlice, req: &str, rest: &[&str]) -> String {
+    if req == "rc" {
+        let r = s.rc();
+        let rr = r.rc();
+        // owned copies: of the rc view, and the rc of the owned copy of the view itself
+        format!("rc={} rcrc={} kmers={} inv={} pal={} own={} ownrc={}", show_digits(&bases(&r)), show_digits(&bases(&rr)), show_ks(&r.iter_kmers::<K>().collect::<Vec<K>>()),
+            (rr == *s) as u8 + 2 * (*s == rr) as u8, (*s == r) as u8 + 2 * (r == *s) as u8,
+            show_digits(&bases(&r.to_owned())), show_digits(&bases(&s.to_owned().rc())))
+    } else { on_vmer::<K, _>(s, req, rest) }
+}
+
 fn run<K: Raw>(req: &str, cont: &str, seq: &[u8], rest: &[&str]) -> String {
     let f: Vec<&str> = cont.split('.').collect();
     match f[0] {
@@ -58,16 +69,15 @@ fn run<K: Raw>(req: &str, cont: &str, seq: &[u8], rest: &[&str]) -> String {
         }
         "slice" => {
             let d = DnaString::from_bytes(seq);
-            let mut s = d.slice(f[1].parse().unwrap(), f[2].parse().unwrap());
-            if f[3] == "1" { s = s.rc(); }
-            if req == "rc" {
-                let r = s.rc();
-                let rr = r.rc();
-                // owned copies: of the rc view, and the rc of the owned copy of the view itself
-                format!("rc={} rcrc={} kmers={} inv={} pal={} own={} ownrc={}", show_digits(&bases(&r)), show_digits(&bases(&rr)), show_ks(&r.iter_kmers::<K>().collect::<Vec<K>>()),
-                    (rr == s) as u8 + 2 * (s == rr) as u8, (s == r) as u8 + 2 * (r == s) as u8,
-                    show_digits(&bases(&r.to_owned())), show_digits(&bases(&s.to_owned().rc())))
-            } else { on_vmer::<K, _>(&s, req, rest) }
+            let s0 = d.slice(f[1].parse().unwrap(), f[2].parse().unwrap());
+            let s1 = if f[3] == "1" { s0.rc() } else { s0 };
+            // `slice.a.b.r.x.y`: a window of that (possibly reverse-complemented) view
+            if f.len() == 6 {
+                let s2 = s1.slice(f[4].parse().unwrap(), f[5].parse().unwrap());
+                slice_req::<K>(&s2, req, rest)
+            } else {
+                slice_req::<K>(&s1, req, rest)
+            }
         }
         "lmer" => match f[1] {
             "1" => lmer_req::<K, [u64; 1]>(seq, req, rest),
@@ -135,7 +145,15 @@ fn container(rng: &mut Rng, k: usize, allow_bytes: bool) -> (String, Vec<u8>, us
             let a = rng.below(40);
             let pad = rng.below(40);
             let seq: Vec<u8> = (0..a + len + pad).map(|_| rng.below(4) as u8).collect();
-            (format!("slice.{}.{}.{}", a, a + len, rng.below(2)), seq, len)
+            if rng.chance(1, 3) {
+                // a window of the (possibly reverse-complemented) view: the inner view is wider by up to 20 bases on either side
+                let (x, extra) = (rng.below(20), rng.below(20));
+                let pad2 = pad + x + extra;
+                let seq: Vec<u8> = (0..a + len + pad2).map(|_| rng.below(4) as u8).collect();
+                (format!("slice.{}.{}.{}.{}.{}", a, a + x + len + extra, rng.below(2), x, x + len), seq, len)
+            } else {
+                (format!("slice.{}.{}.{}", a, a + len, rng.below(2)), seq, len)
+            }
         }
         4 => {
             let n = *rng.pick(&[1usize, 2, 3, 4, 6]);
